@@ -226,9 +226,21 @@ pub async fn run_seq(role: Role, state: State, seq: &[usize], alpha: &[Tpl], rev
     if let Some((_, class, detail)) = app.stops().first() {
         let peer_disconnected = seq.iter().any(|k| alpha[*k].name.starts_with("DISCONNECT"));
         if *class != crate::app::StopClass::Protocol && !peer_disconnected {
+            // a class of its own (open finding, DESIGN.md §10.2): an acknowledgement that does not
+            // match the oldest outstanding send makes the sink close the io at once, while the
+            // protocol error itself waits in the ordered response queue behind a handler that is
+            // still pending - the dispatcher then notices the closed io first
+            let names: Vec<&str> = seq.iter().map(|k| alpha[*k].name).collect();
+            let stray_ack = names.iter().any(|n| ["PUBACK", "PUBREC", "PUBCOMP", "SUBACK", "UNSUBACK"].iter().any(|a| n.starts_with(a)));
+            let handler_pending = app.count(|e| matches!(e, Ev::ProtoDropped { .. } | Ev::PubDropped { .. })) > 0;
+            let class_txt = if *class == crate::app::StopClass::PeerGone && stray_ack && handler_pending {
+                "unexpected acknowledgement while a handler was pending: the control service saw PeerGone instead of the protocol error".to_string()
+            } else {
+                format!("connection ended by a peer packet without a protocol error reported to the control service ({class:?})")
+            };
             out.violation = Some((
-                format!("connection ended by a peer packet without a protocol error reported to the control service ({class:?})"),
-                format!("state {state:?}, sequence {:?}, detail {detail}", seq.iter().map(|k| alpha[*k].name).collect::<Vec<_>>()),
+                class_txt,
+                format!("state {state:?}, sequence {names:?}, detail {detail}"),
             ));
         }
     }
@@ -389,7 +401,7 @@ pub fn run(opts: &Opts) -> i32 {
                 }
                 if let Some((class, what)) = &o.violation {
                     rep.violation(Violation {
-                        signature: format!("{}: {} [{}]", role.name(), class, first_cause(&names)),
+                        signature: if class.starts_with("unexpected acknowledgement while a handler was pending") { format!("{}: {}", role.name(), class) } else { format!("{}: {} [{}]", role.name(), class, first_cause(&names)) },
                         what: format!("{class} — {what}"),
                         replay: json!({"case": replay, "log": o.log}),
                     });
